@@ -5,12 +5,14 @@ package main
 
 import (
 	"crypto/sha256"
+	"encoding/json"
 	"fmt"
 	"os"
 	"path/filepath"
 	"sort"
 	"strings"
 	"sync"
+	"sync/atomic"
 	"time"
 )
 
@@ -53,6 +55,33 @@ func c01Hash(c *c01Case) [32]byte {
 	return out
 }
 
+var (
+	c01KnownOnce sync.Once
+	c01Known     map[string]bool
+)
+
+// c01KnownKeys: the keys of the recorded C01 findings (known-findings.json is only read)
+func c01KnownKeys(ctx *Ctx) map[string]bool {
+	c01KnownOnce.Do(func() {
+		c01Known = map[string]bool{}
+		data, err := os.ReadFile(filepath.Join(ctx.Verif, "known-findings.json"))
+		if err != nil {
+			return
+		}
+		var kf struct {
+			Findings []struct{ Status, Property, Key string } `json:"findings"`
+		}
+		if json.Unmarshal(data, &kf) == nil {
+			for _, f := range kf.Findings {
+				if f.Status == "known" && f.Property == "C01" {
+					c01Known[f.Key] = true
+				}
+			}
+		}
+	})
+	return c01Known
+}
+
 type c01Bad struct {
 	c *c01Case
 	v c01Verdict
@@ -66,43 +95,55 @@ func c01Process(ctx *Ctx, res *Result, b c01Bad, reduce bool) *Violation {
 
 // measured = number of measurements of the same case that were already taken and agree (probes)
 func c01ProcessN(ctx *Ctx, res *Result, b c01Bad, reduce bool, measured int) *Violation {
+	// a scaling probe ends quickly at n and 2n: what it shows at 4n is growth ("time"), whether or
+	// not the run at 4n reaches the CPU limit
+	probe := strings.HasPrefix(b.c.Stream, "probe:")
+	if probe && b.v.Kind == "hang" {
+		b.v.Kind = "time"
+	}
 	c, v := b.c, b.v
 	wd := c01Timeout(ctx, c)
 	same := func(x c01Verdict) bool { return x.Kind == v.Kind && x.Site == v.Site }
-	switch v.Kind {
-	case "hang", "time":
-		// hang: confirmed twice; time: confirmed three times; a run that sometimes ends just
-		// below the CPU limit and sometimes not is a "time" finding
-		n := 3
+	slow := v.Kind == "hang" || v.Kind == "time"
+	if slow {
+		// hang: confirmed twice; time: three measurements in all; a run that sometimes ends below
+		// the CPU limit and sometimes not is a "time" finding. The runs are independent: concurrently.
+		k := 2 - measured
 		if v.Kind == "hang" {
-			n = 2
+			k = 2
 		}
-		for i := measured; i < n; i++ {
-			x := c01Judge(c01RunCase(ctx, c, wd), c.Spec.Size())
+		if k < 0 {
+			k = 0
+		}
+		xs := make([]c01Verdict, k)
+		var cw sync.WaitGroup
+		for i := range xs {
+			cw.Add(1)
+			go func(i int) { defer cw.Done(); xs[i] = c01Judge(c01RunCase(ctx, c, wd), c.Spec.Size()) }(i)
+		}
+		cw.Wait()
+		for _, x := range xs {
 			if x.Kind != "time" && x.Kind != "hang" {
 				res.Count("unconfirmed."+v.Kind, 1)
 				return nil
 			}
 			if x.Kind == "time" && v.Kind == "hang" {
 				v.Kind, v.Detail = "time", x.Detail
-				n = 3
 			}
 		}
-	default:
-		if x := c01Judge(c01RunCase(ctx, c, wd), c.Spec.Size()); !same(x) {
-			res.Count("unconfirmed."+v.Kind, 1)
-			return nil
-		}
+	} else if x := c01Judge(c01RunCase(ctx, c, wd), c.Spec.Size()); !same(x) {
+		res.Count("unconfirmed."+v.Kind, 1)
+		return nil
 	}
-	red := c
-	if reduce {
-		rd := &c01Reducer{par: 16}
+
+	mkReducer := func(coarse bool) *c01Reducer {
+		rd := &c01Reducer{par: 16, coarse: coarse}
 		switch v.Kind {
 		case "hang":
-			// CPU-bound: still running after 2 s of CPU; blocked: no exit within 20 s while using no CPU
+			// CPU-bound: still running after 3 s of CPU; blocked: no exit within 90 s while using no CPU
 			rd.budget = 600
 			rd.test = func(n *c01Case) bool {
-				x := c01RunCaseOnce(ctx, n, 60*time.Second, 2)
+				x := c01RunCaseOnce(ctx, n, 90*time.Second, 3)
 				return x.TimedOut && (x.Signal == "cpu-limit" || x.CPU < 200*time.Millisecond)
 			}
 		case "time":
@@ -118,19 +159,33 @@ func c01ProcessN(ctx *Ctx, res *Result, b c01Bad, reduce bool, measured int) *Vi
 			rd.budget = 1500
 			rd.test = func(n *c01Case) bool { return same(c01Judge(c01RunCase(ctx, n, wd), n.Spec.Size())) }
 		}
-		red = rd.reduce(c)
-		// the reduced case must fail under the full rules, otherwise keep the original
-		x := c01Judge(c01RunCase(ctx, red, wd), red.Spec.Size())
-		ok := same(x) || (v.Kind == "time" && x.Kind == "hang")
-		if !ok {
-			red = c
+		if coarse {
+			rd.budget = 64
 		}
-		res.Count("reductions", 1)
+		return rd
 	}
+	accept := func(cand *c01Case) *c01Case {
+		// the reduced case must fail under the full rules, otherwise keep what we had
+		x := c01Judge(c01RunCase(ctx, cand, wd), cand.Spec.Size())
+		if same(x) || (slow && (x.Kind == "time" || x.Kind == "hang")) {
+			return cand
+		}
+		return nil
+	}
+
+	red := c
 	key, what := "", ""
-	rep := c01EncodeCase(red)
-	switch v.Kind {
-	case "hang", "time":
+	var stack []string
+	if slow {
+		// 1. coarse reduction (argv, whole entries), unless every passing candidate would cost the
+		// envelope of a big input
+		if reduce && c.Spec.Size() < 16384 {
+			if cand := accept(mkReducer(true).reduce(c)); cand != nil {
+				red = cand
+			}
+			res.Count("reductions.coarse", 1)
+		}
+		// 2. the family, always computed on the coarsely reduced case
 		var cpu time.Duration
 		if v.Kind == "time" {
 			cpu = b.r.CPU
@@ -138,17 +193,36 @@ func c01ProcessN(ctx *Ctx, res *Result, b c01Bad, reduce bool, measured int) *Vi
 				cpu = c01RunCase(ctx, red, wd).CPU
 			}
 		}
-		fam, stack := c01HangFamily(ctx, red, cpu)
+		fam, st := c01HangFamily(ctx, red, cpu, v.Kind == "time")
+		stack = st
 		kind := v.Kind
-		if fam == "nested-modifier-reparse" {
-			kind = "time" // exponential, not endless: the recursion is finite
+		if probe || fam == "nested-modifier-reparse" {
+			kind = "time" // growth / exponential, not endless
 		}
 		key = "C01/" + kind + "/" + fam
+		// 3. line by line and byte by byte only for a finding that is not yet recorded: for a known
+		// one every passing candidate would burn seconds of CPU in every run of the check
+		if reduce && !c01KnownKeys(ctx)[key] && red.Spec.Size() < 16384 {
+			if cand := accept(mkReducer(false).reduce(red)); cand != nil {
+				red = cand
+			}
+			res.Count("reductions.fine", 1)
+		}
 		what = fmt.Sprintf("%s in %s: %s; pkglint %s", kind, fam, v.Detail, strings.Join(red.Args, " "))
-		rep["stack"] = stack
-	default:
+	} else {
+		if reduce {
+			if cand := accept(mkReducer(false).reduce(c)); cand != nil {
+				red = cand
+			}
+			res.Count("reductions", 1)
+		}
 		key = "C01/" + v.Kind + "/" + v.Site
 		what = fmt.Sprintf("%s at %s: %s; pkglint %s", v.Kind, v.Site, v.Detail, strings.Join(red.Args, " "))
+	}
+	rep := c01EncodeCase(red)
+	if slow {
+		rep["stack"] = stack
+	} else {
 		rep["stderr"] = firstLines(b.r.Stderr, 40)
 	}
 	rep["verdict"] = v.Kind
@@ -327,7 +401,7 @@ func c01Probes() []c01Probe {
 }
 
 func c01ProbeCase(ctx *Ctx, p c01Probe, n int) *c01Case {
-	dir := filepath.Join(c01Scratch(ctx), "gen", "probe-"+p.name+fmt.Sprint(n))
+	dir := filepath.Join(c01Scratch(ctx), "gen", fmt.Sprintf("probe-%s-%d-%d", p.name, n, atomic.AddInt64(&c01RunSeq, 1)))
 	NewBaseTree(dir)
 	spec := CaptureTree(dir, ctx.Work)
 	os.RemoveAll(dir)
@@ -397,9 +471,6 @@ func c01RunProbes(ctx *Ctx, res *Result) {
 			defer wg.Done()
 			rw := rows[i]
 			v := c01Verdict{Kind: "time", Detail: fmt.Sprintf("probe %s: cpu %.2fs, %.2fs, %.2fs for n, 2n, 4n (n=%d; %d bytes at 4n)", ps[i].name, rw.t[0].Seconds(), rw.t[1].Seconds(), rw.t[2].Seconds(), ps[i].n0, rw.size[2])}
-			if rw.out[2] {
-				v.Kind = "hang"
-			}
 			if viol := c01ProcessN(ctx, res, c01Bad{rw.c[2], v, rw.r[2]}, false, 1); viol != nil {
 				viol.Replay["probe"] = ps[i].name
 				res.AddViolation(*viol)
@@ -538,7 +609,10 @@ func c01RunStreams(ctx *Ctx, res *Result) {
 		g := groups[k]
 		limit := 1
 		if g[0].v.Kind == "hang" || g[0].v.Kind == "time" {
-			limit = 4 // different families can hide behind one verdict kind
+			limit = 2 // different families can hide behind one verdict kind
+			if ctx.Tier == "thorough" {
+				limit = 6
+			}
 		}
 		done := 0
 		for _, b := range g {
